@@ -16,6 +16,7 @@
 from __future__ import annotations
 
 import asyncio
+import os
 import pathlib
 from asyncio.log import logger
 from collections.abc import AsyncIterable
@@ -194,9 +195,18 @@ class Controller(AbstractController):
         if not path.parent.exists():
             path.parent.mkdir(parents=True, exist_ok=True)
 
+        # Serialise first and write to a temporary file that then atomically replaces
+        # the pairing file: an interrupted save (crash, power loss, full disk) must not
+        # destroy the pairing data that is already on disk.
+        serialized = hkjson.dumps_indented(data)
+        tmp_filename = f"{filename}.tmp"
+
         try:
-            with open(filename, mode="w", encoding="utf-8") as output_fp:
-                output_fp.write(hkjson.dumps_indented(data))
+            with open(tmp_filename, mode="w", encoding="utf-8") as output_fp:
+                output_fp.write(serialized)
+                output_fp.flush()
+                os.fsync(output_fp.fileno())
+            os.replace(tmp_filename, filename)
         except PermissionError:
             raise ConfigSavingError(f'Could not write "{filename}" due to missing permissions')
         except FileNotFoundError:
